@@ -18,10 +18,11 @@ Go facts mirrored here (all under `c.mu`):
 * a failed regular subscribe removes its reservation if the generation still matches; a successful one
   turns it into a subscription if the generation still matches (generations are unique and a callback
   answers once, so `complete` only ever meets its own `reserved` placeholder);
-* shared-poll client subscribe (`handleSharedPollSubscribe`): channel present in either map →
-  `ErrorAlreadySubscribed`; `len(channels)+len(mapSubscribing) ≥ limit` → `ErrorLimitExceeded`; otherwise
-  a reservation in `c.channels` in the same critical section (no channel-name length check on this path);
-  it completes or fails like a regular subscribe;
+* shared-poll client subscribe (`handleSharedPollSubscribe`, dispatched before
+  `validateSubscribeRequest`): too long name → `ErrorBadRequest` (since /repo commit 931f86e2; finding
+  C37-2); channel present in either map → `ErrorAlreadySubscribed`;
+  `len(channels)+len(mapSubscribing) ≥ limit` → `ErrorLimitExceeded`; otherwise a reservation in
+  `c.channels` in the same critical section; it completes or fails like a regular subscribe;
 * server-side `Client.Subscribe` compares `len(c.channels)` alone with the limit and closes the
   connection with `DisconnectChannelLimit` when it is reached.
 -/
@@ -80,7 +81,7 @@ inductive Ev
   /-- `validateSubscribeRequest` for a regular subscribe of a channel whose name has `len` bytes -/
   | subReg (ch len : Nat)
   /-- `handleSharedPollSubscribe`: check and reserve (third reservation path, same limit rule) -/
-  | subPoll (ch : Nat)
+  | subPoll (ch len : Nat)
   /-- `validateSubscribeRequest` for an initial map subscribe (checks only) -/
   | subMapValidate (ch len : Nat)
   /-- the map subscribe continues after `OnSubscribe`: reserve in `mapSubscribing` -/
@@ -101,8 +102,9 @@ def step (s : LState) : Ev → LState × Res
     else if 0 < s.limit ∧ s.limit ≤ s.total then (s, .limitExceeded)
     else ({ s with channels := s.channels ++ [⟨ch, s.nextGen, .reserved⟩], nextGen := s.nextGen + 1 },
           .ok s.nextGen)
-  | .subPoll ch =>
-    if s.inChannels ch ∨ s.inMap ch then (s, .alreadySubscribed)
+  | .subPoll ch len =>
+    if 0 < s.maxLen ∧ s.maxLen < len then (s, .badRequest)
+    else if s.inChannels ch ∨ s.inMap ch then (s, .alreadySubscribed)
     else if 0 < s.limit ∧ s.limit ≤ s.total then (s, .limitExceeded)
     else ({ s with channels := s.channels ++ [⟨ch, s.nextGen, .reserved⟩], nextGen := s.nextGen + 1 },
           .ok s.nextGen)
